@@ -25,7 +25,7 @@ generated loop body.
 /-- definitions that the tie proofs unfold without naming them (generated loop bodies) -/
 register_simp_attr tie_unfold
 
-namespace TieAux
+namespace TieAuxC
 open Compile
 
 def forIn {α β : Type} (f : β → α → Option (ForInStep β)) : β → List α → Option β
@@ -402,4 +402,4 @@ theorem serSddElems_nodeKeys : ∀ (es : List (Sdd.Ptr × Sdd.Ptr)) (s : Ser.Sdd
     exact serSddElems_nodeKeys rest _ (serSddAux_nodeKeys sub _ (serSddAux_nodeKeys p s h))
 end
 
-end TieAux
+end TieAuxC
